@@ -20,6 +20,11 @@ CLAIMS = {
         text="Exploration. Operand lists (1-6 operands: primitives, nested CSG trees, exact duplicates; 2D and 3D) x 100-300 query points concentrated at seams, box faces and multiples of the smoothing radius: Joined/Intersected/Subtracted/Stacked equal the boolean formula over the operands' own answers; Optimize, SolidMux.Contains/AllContains/IterContains (incl. nil callback) equal the plain form; unions, intersections, SmoothJoin and SmoothJoinV2 are invariant under random permutations; smooth joins contain the union, equal it at radius 0 and for one operand, and add only points within the radius of two operands. RectSet: random Add/Remove/AddRectSet/RemoveRectSet histories against an occupancy grid, compared at every half-lattice point after every step.",
         note="Trusted: the operands' own Contains/SDF (only the combinators are under test), the occupancy-grid model. Points where an operand claims membership one ulp outside its own box are skipped for the accelerated forms (that is C03's concern). RectSet boundary points whose status differs between 'set minus' and 'union of remaining boxes' readings are skipped.",
         design="3/C04"),
+    "C05": dict(
+        technique="property-based testing (rapid): inverse round trips, bounds enclosure, distance law and conjugacy (metamorphic) against the harness's own affine arithmetic",
+        text="Exploration. Random transforms (translate, scale, per-axis scale of any signs, well-conditioned matrices incl. reflections, rotations, compositions of 1-4; 2D analogues; AxisSqueeze, AxisPinch, SmartSqueeze): Apply equals the reference affine map, Inverse composes to the identity in both orders within the propagated rounding of the intermediate point, ApplyBounds encloses the images of corner/edge/face/interior box points, ApplyDistance equals the measured distance change; TransformSolid membership, TransformCollider ray parameters / unit normals / nil callback / first hit / ball queries, Transform- and VecScale-metaball fields and distance bounds are conjugate to the original primitive; MarchingCubesConj / SmartSqueeze meshes are closed and have winding number 1/0 well inside/outside the original solid, also for reflecting transforms.",
+        note="Trusted: reference affine arithmetic in harness/gen/xforms.go and the primitives' reference distances. Negative uniform Scale is not generated (its ApplyBounds yields min > max, which FuncSolid rejects by documented contract). Rays that are not in general position are skipped and counted.",
+        design="3/C05"),
     "C06": dict(
         technique="property-based testing (rapid) against closed-form reference distances (profile reduction, per-axis clamping) and brute force over faces",
         text="Exploration. Random primitives (2D and 3D, arbitrary axes, aspect ratios to 1e3) x query points inside, outside, near the surface, on axes and at centres: sign vs Contains, |SDF| vs the reference distance (1e-9 relative), Lipschitz bound on all point pairs, PointSDF point on the boundary at distance |SDF|, NormalSDF unit and equal to the reference outward normal and to -grad SDF where the nearest point is unique and smooth; MeshToSDF (2D, 3D) against an exhaustive minimum over faces and winding-number sign, FaceSDF/NormalSDF against the unique nearest face; ProfileSDF/ProfilePointSDF against a case-split reference; ColliderToSDF and TransformSDF against the primitive's reference.",
